@@ -1,6 +1,6 @@
 """C07 - TZID events occur at the stated local wall-clock time"""
 import time, json, random, collections, subprocess, os
-import vlib, tzif
+import vlib, tzif, rrgen, strmrun, datetime as D
 
 PID = 'C07'
 QUICK_ZONES = ['Africa/Casablanca', 'Europe/Berlin', 'Europe/London', 'America/New_York', 'America/St_Johns', 'Australia/Lord_Howe', 'Australia/Sydney',
@@ -85,15 +85,58 @@ def run(tier, seed):
                     if len(sample_lines) < 3 and r['e'] == 'ToUTC' and ln % 97 == 0: sample_lines.append(r)
         chunks.append((fn, 0))
     v = vlib.validate('TraceTZ.tla', 'TraceTZ.cfg', chunks, wd)
+    # ---- event level: DTSTART;TZID=... with a rule, through the real parser and rule expander
+    drs = vlib.driver(B, 'drv_strm', libs='-lltdl -lm -ldl')
+    evz = [z for z in names if tzif.read('/usr/share/zoneinfo/' + z) is not None]
+    if tier != 'thorough': evz = evz[:40]
+    ecases = []
+    for zn in evz:
+        z = tzif.read('/usr/share/zoneinfo/' + zn)
+        tyears = sorted(set(time.gmtime(t).tm_year for t in z['trans'] if 1972 < time.gmtime(t).tm_year < 2036)) or [2000]
+        for _ in range(6 if tier == 'thorough' else 3):
+            y = rnd.choice(tyears); m = rnd.randint(1, 12); d = rnd.randint(1, 28)
+            hms = rnd.choice([(9, 0, 0), (12, 30, 0), (18, 45, 30), (23, 30, 0), (6, 15, 59), (0, 30, 0), (2, 30, 0)])
+            ds = (y, m, d) + hms
+            kind = rnd.choice(['daily', 'daily', 'dailyN', 'weekly', 'monthly', 'tod'])
+            if kind == 'daily': r = rrgen.blank('DAILY'); maxpop = 400
+            elif kind == 'dailyN': r = rrgen.blank('DAILY', rnd.choice([2, 7, 10])); maxpop = 130
+            elif kind == 'weekly':
+                r = rrgen.blank('WEEKLY', rnd.choice([1, 1, 2])); wd_ = D.date(y, m, d).weekday() + 1
+                r['dow'] = [[0, w] for w in sorted(set([wd_] + rnd.sample(range(1, 8), rnd.randint(0, 3))))]; maxpop = 130
+            elif kind == 'monthly': r = rrgen.blank('MONTHLY'); r['md'] = sorted(set([d, rnd.choice([1, 15, 28])])); maxpop = 70
+            else:
+                # time-of-day parts given in the zone's wall-clock time
+                r = rrgen.blank('DAILY'); r['H'] = sorted(set([hms[0], rnd.choice([1, 8, 12, 20])])); maxpop = 130
+            rt = rrgen.rule_text(r)
+            ecases.append({'zone': zn, 'ds': rrgen.inst(ds), 'rule': rrgen.spec_rule(r), 'rtext': rt, 'kind': kind, 'ics': rrgen.event_ics('z', ds, [rt], tzid=zn), 'maxpop': maxpop, 'hz': (2037, 6, 30), 'mode': 'p'})
+    egroups = {}
+    for c in ecases: egroups.setdefault(evz.index(c['zone']) // 50, []).append(c)
+    echunks = []; erecs_all = []
+    for gi, grp in sorted(egroups.items()):
+        recs = strmrun.run_cases(drs, grp, wd, 'tzev%d' % gi, budget=5)
+        fn = f'{wd}/tzev{gi:02d}.ndjson'; zline = {}; ln = 0
+        with open(fn, 'w') as f:
+            for c, r in zip(grp, recs):
+                if c['zone'] not in zline:
+                    z = tzif.read('/usr/share/zoneinfo/' + c['zone']); ln += 1; zline[c['zone']] = ln
+                    f.write(json.dumps({'e': 'Zone', 'name': c['zone'], 'off0': z['off0'], 'trans': z['trans'], 'offs': z['offs']}) + '\n')
+                for kk in ('text', 'uid', 'maxpop', 'mode'): r.pop(kk, None)
+                r['e'] = 'Ev'; r['z'] = zline[c['zone']]; ln += 1
+                f.write(json.dumps(r) + '\n'); erecs_all.append(r)
+        echunks.append((fn, 0))
+    ve = vlib.validate('TraceTZEv.tla', 'TraceTZEv.cfg', echunks, wd, timeout=3000)
     bad = []
     for fn, k, g in v['bad'][:1000]:
         rec = json.loads(vlib.getline(fn, k))
         bad.append((vlib.save_replay(PID, f'{os.path.basename(fn)}_line{k}.json', rec), rec))
-    unlisted, listed = vlib.classify(PID, bad)
+    for fn, k, g in ve['bad'][:1000]:
+        rec = json.loads(vlib.getline(fn, k)); rec['nocc'] = len(rec.get('occ', [])); rec['occ'] = rec.get('occ', [])[:6]
+        bad.append((vlib.save_replay(PID, f'{os.path.basename(fn)}_line{k}.json', rec), rec))
+    unlisted, listed = vlib.classify(PID, bad, lambda rec: {'has_tod': bool(rec.get('rule', {}).get('H') or rec.get('rule', {}).get('M') or rec.get('rule', {}).get('S')), 'is_event': rec.get('e') == 'Ev'})
     cov = {'states': e1['states'], 'transitions': e1['transitions'], 'traces_validated_against_impl': len(chunks),
            'samples': sample_lines or [json.loads(vlib.getline(chunks[0][0], 5))], 'evaluations': nsamp, 'distinct_nontrivial': nsamp - v['nskip'] + nzones,
-           'rule': 'one case = (zone, instant, direction). Instants: both sides (+-1 s, +-1 h, +-1 d) of every transition of the zone 1902-2037, 1st and 15th of every month of 14 years, seeded random; each number is used as a UTC instant (-> local, offset) and as a wall-clock time (-> UTC). Non-trivial = unambiguous (gap/overlap wall-clock times are skipped by the spec)',
-           'zones': nzones, 'zone_files_not_tzif': excluded, 'mismatching_lines': v['nbad'], 'skipped_gap_or_overlap_or_zone_lines': v['nskip'],
+           'rule': 'one case = (zone, instant, direction). Instants: both sides (+-1 s, +-1 h, +-1 d) of every transition of the zone 1902-2037, 1st and 15th of every month of 14 years, seeded random; each number is used as a UTC instant (-> local, offset) and as a wall-clock time (-> UTC). Non-trivial = unambiguous (gap/overlap wall-clock times are skipped by the spec). Event level: DTSTART;TZID=<zone> in a year in which the zone has transitions, with FREQ=DAILY (400 pops), DAILY;INTERVAL=n, WEEKLY;BYDAY, MONTHLY;BYMONTHDAY or DAILY;BYHOUR, parsed and unrolled by the real code; every UTC instant handed out is compared with the zone-table conversion of the wall-clock time the rule selects',
+           'event_level': {'events': len(erecs_all), 'zones': len(evz), 'occurrences': sum(len(r.get('occ', [])) for r in erecs_all), 'mismatching': ve['nbad'], 'skipped_gap_overlap_or_undecided': ve['nskip'] - len(evz), 'kinds': dict(collections.Counter(r['kind'] for r in erecs_all))}, 'zones': nzones, 'zone_files_not_tzif': excluded, 'mismatching_lines': v['nbad'], 'skipped_gap_or_overlap_or_zone_lines': v['nskip'],
            'exhaustive': False}
     return vlib.finish(PID, tier, seed, 'model_checking', cov, t0, unlisted, listed,
                        ['TLC/SANY, Json/IOUtils', 'gen/tzif.py: independent RFC 8536 reader of the installed zone files (64-bit block, clipped to 1902..2037)',
